@@ -487,6 +487,7 @@ impl<'p> World<'p> {
             }
             Step::Offer { text, faults, reader, artifact, expect, why } => crate::textcheck::offer(self, text, faults, *reader, *artifact, *expect, why),
             Step::Serde { text, reader, artifact } => crate::textcheck::serde_check(self, text, *reader, *artifact),
+            Step::SerdeCross { text, reader, artifact } => crate::textcheck::serde_cross(self, text, *reader, *artifact),
             Step::Validate { validator, claims, now_ns, mapped } => crate::codec::validate_step(self, validator, claims, now_ns.0, *mapped),
             Step::Codec { case } => crate::codec::codec_step(self, case),
             Step::Threads { spec } => crate::sched::run_threads(self, spec),
